@@ -105,6 +105,14 @@ Sample(s, h, inter) ==
                      ones |-> Cardinality(Starts), len |-> len],
           [idx |-> WindowIdx(s, h), rows |-> Window(s, h)])
 
+(* uniform variant with data stored but no admissible start yet (warm-up: the first episode is not longer than the
+   horizon, or every stored episode was truncated early): there is nothing that may be sampled - the request is
+   rejected loudly, it must not hand out a window *)
+SampleNone ==
+  /\ ~PRIO /\ Starts = {} /\ len > 0
+  /\ UNCHANGED vars
+  /\ Emit("SampleNone", <<len>>, "error")
+
 (* prioritized variant: a batch of ticks; remembers the selected starts *)
 TickVectors == UNION {[1..b -> 1..Total] : b \in 1..MaxBatch}
 SamplePrio(ticks, h, inter) ==
@@ -141,6 +149,7 @@ ResetMax ==
 
 Next == \/ \E e \in {"cont", "term", "trunc"} : Add(e)
         \/ \E s \in Starts, h \in 1..H, inter \in BOOLEAN : Sample(s, h, inter)
+        \/ SampleNone
         \/ \E t \in TickVectors, h \in 1..H, inter \in BOOLEAN : SamplePrio(t, h, inter)
         \/ \E b \in 1..MaxBatch : \E v \in ValVectors(b) : UpdatePriority(v)
         \/ ResetMax
